@@ -268,13 +268,13 @@ func rulePairing(c *Ctx, rule, rel string) {
 			ast.Inspect(fd.Body, func(x ast.Node) bool {
 				if id, ok := x.(*ast.Ident); ok && id.Name == root {
 					if v, ok := sf.info.Defs[id].(*types.Var); ok && !v.IsField() {
-						isLocal = true
+						isLocal = true // declared inside the body: not a receiver or parameter
 					}
 				}
 				return true
 			})
-			if isLocal && !strings.Contains(k, ".") {
-				continue
+			if isLocal {
+				continue // the scope belongs to an object created in this function and does not outlive it
 			}
 			var bad []string
 			var badPos token.Pos
